@@ -697,6 +697,57 @@ def evalb(b: SymBool, env, tol=0.0, memo=None):
     raise KitError(op)
 
 
+# ------------------------------------------------------------- substitution
+def substitute(t, mapping: dict, memo=None):
+    """Replace sub-terms (keys of mapping, matched by identity, outermost first)."""
+    if memo is None:
+        memo = {}
+    return _subst(_coerce(t), mapping, memo)
+
+
+def _subst(t, mp, memo):
+    r = memo.get(t)
+    if r is not None:
+        return r
+    if t in mp:
+        r = _coerce(mp[t])
+    else:
+        op = t.op
+        if op in ("c", "v", "f"):
+            r = t
+        elif op == "uf":
+            r = uf(t.a[0], [_subst(x, mp, memo) for x in t.a[1]])
+        elif op == "+":
+            r = _add([(Fraction(1), const(t.a[0]))] + [(c, _subst(x, mp, memo)) for c, x in t.a[1]])
+        elif op == "*":
+            r = _mul([(_subst(b, mp, memo), e) for b, e in t.a])
+        else:
+            x = _subst(t.a[0], mp, memo)
+            saved = ORACLE[0]
+            ORACLE[0] = None
+            try:
+                r = {"sqrt": sqrt, "sin": sin, "cos": cos, "tan": tan, "acos": acos, "atan": atan}[op](x)
+            finally:
+                ORACLE[0] = saved
+    memo[t] = r
+    return r
+
+
+def substitute_b(b, mapping, memo=None):
+    if memo is None:
+        memo = {}
+    op = b.op
+    if op in ("T", "F", "bv"):
+        return b
+    if op == "not":
+        return ~substitute_b(b.a[0], mapping, memo)
+    if op == "and":
+        return substitute_b(b.a[0], mapping, memo) & substitute_b(b.a[1], mapping, memo)
+    if op == "or":
+        return substitute_b(b.a[0], mapping, memo) | substitute_b(b.a[1], mapping, memo)
+    return _cmp(op, _subst(b.a[0], mapping, memo))
+
+
 # ----------------------------------------------------------------- helpers
 def free_atoms(ts, bools=()):
     """All v/f/uf leaves reachable from the Sym terms `ts` and SymBools."""
